@@ -516,6 +516,10 @@ pub struct GenParams {
     /// this many extra tiny sections (0 = none): tables beyond any plausible small-table
     /// threshold (64, 128, 256 entries)
     pub many_sections: usize,
+    /// one linking section (symtab, dynsym, verneed, verdef) is pointed at an *alias* of its
+    /// string table: a second STRTAB header over the same bytes sharing the start (shorter),
+    /// the end, or the whole range with the original
+    pub relink: bool,
 }
 
 impl GenParams {
@@ -583,6 +587,7 @@ impl GenParams {
             extra_phdrs: rng.urange(0, 3),
             dup_kinds: rng.chance(1, 12),
             xnum_zero: rng.chance(1, 14),
+            relink: rng.chance(1, 8),
             many_sections: if small || !rng.chance(1, 24) {
                 0
             } else {
@@ -646,6 +651,7 @@ impl GenParams {
             .with("xnum_zero", J::Bool(self.xnum_zero))
             .with("big", J::u(self.big as u64))
             .with("many_sections", J::u(self.many_sections as u64))
+            .with("relink", J::Bool(self.relink))
             .with("no_shstrtab", J::Bool(self.no_shstrtab))
             .with("max_pad", J::u(self.max_pad as u64))
             .with("nsyms", J::u(self.nsyms as u64))
@@ -964,6 +970,37 @@ pub fn build(rng: &mut Rng, p: &GenParams) -> Vec<u8> {
     for i in (1..secs.len()).rev() {
         let j = rng.usize_below(i + 1);
         secs.swap(i, j);
+    }
+    // relink: two string-table headers over (parts of) the same bytes, linked from different
+    // sections (e.g. VERNEED -> .dynstr, VERDEF -> an alias of .dynstr with the same start
+    // and a different size)
+    if p.relink {
+        let linkers: Vec<usize> = secs
+            .iter()
+            .enumerate()
+            .filter(|(_, s)| {
+                s.link.is_some()
+                    && matches!(
+                        s.typ,
+                        hdr::SHT_SYMTAB | hdr::SHT_DYNSYM | hdr::SHT_GNU_VERNEED | hdr::SHT_GNU_VERDEF
+                    )
+            })
+            .map(|(i, _)| i)
+            .collect();
+        if !linkers.is_empty() {
+            let li = *rng.pick(&linkers);
+            let target = secs[li].link.clone().unwrap();
+            if secs.iter().any(|s| s.name == target && !s.data.is_empty()) {
+                secs.push(Sec {
+                    name: ".alias.link".into(),
+                    typ: hdr::SHT_STRTAB,
+                    align: 1,
+                    alias: Some((target, *rng.pick(&[0u8, 0, 1, 2]))),
+                    ..Default::default()
+                });
+                secs[li].link = Some(".alias.link".into());
+            }
+        }
     }
     // alias sections (overlay mode): ranges sharing a start / an end / nesting / empty
     let owners: Vec<String> = secs
